@@ -47,7 +47,8 @@ typedef struct vb_run_s {
     int N, M, K, again_seed, again_max;
     const vp_entry_t *entry;
     /* execution */
-    int index, nsub, keys_done, finished, timed_out, started;
+    int index, nsub, keys_done, finished, timed_out, started, maxev;
+    volatile int nev, runaway, badindex;          /* body events seen; set when more than maxev: the taskpool runs away */
     parsec_taskpool_t *top, *sub[MAXSUB];
     volatile int done;                    /* completion callbacks seen on the top-level taskpool */
     vb_inst_t *inst;
@@ -65,7 +66,8 @@ static int vb_idx(parsec_data_collection_t *d, va_list ap)
     vb_run_t *r = (vb_run_t*)d;
     int k = va_arg(ap, int);
     if( k < 0 || k >= r->ntiles ) {
-        vt_ev("\"e\":\"BadIndex\",\"tp\":%d,\"i\":%d", r->index * 64, k);
+        if( 0 == __sync_fetch_and_add(&r->badindex, 1) )          /* once per run */
+            vt_ev("\"e\":\"BadIndex\",\"tp\":%d,\"i\":%d", r->index * 64, k);
         k = ((k % r->ntiles) + r->ntiles) % r->ntiles;
     }
     return k;
@@ -158,8 +160,14 @@ int vb_task(parsec_execution_stream_t *es, int tpid, int cls,
     char sp[96], sl[200], sr[300], sw[300];
     vb_run_t *r = runs[tpid / 64];
     int ts = r->ts, o;
-    int attempt = vb_attempt(r, tpid, cls, np, p);
     long S = 0;
+    if( r->runaway || __sync_add_and_fetch(&r->nev, 1) > r->maxev ) {
+        /* more body executions than the space can explain (e.g. a loop that never ends): stop recording,
+         * the driver reports it; the values do not matter any more */
+        r->runaway = 1;
+        return 0;
+    }
+    int attempt = vb_attempt(r, tpid, cls, np, p);
 
     vb_fmt_ints(sp, sizeof(sp), p, np);
     vb_fmt_ints(sl, sizeof(sl), l, nl);
@@ -327,6 +335,7 @@ static vb_run_t *parse_run(const char *line, int index)
     sscanf(tok_of(line, "again", b, sizeof(b), "0:0"), "%d:%d", &r->again_seed, &r->again_max);
     snprintf(r->keys, sizeof(r->keys), "%s", tok_of(line, "keys", b, sizeof(b), ""));
     snprintf(r->pools, sizeof(r->pools), "%s", tok_of(line, "pools", b, sizeof(b), ""));
+    r->maxev = atoi(tok_of(line, "maxev", b, sizeof(b), "100000"));
     for( int i = 0; NULL != vp_table[i].name; i++ )
         if( 0 == strcmp(vp_table[i].name, r->prog) ) r->entry = &vp_table[i];
     r->inst = (vb_inst_t*)calloc(MAXINST, sizeof(vb_inst_t));
@@ -432,6 +441,15 @@ int main(int argc, char **argv)
                     keys_of_space(r);
                     r->keys_done = 1;
                 }
+                if( r->runaway && (!r->keys[0] || r->keys_done) ) {
+                    vt_ev("\"e\":\"Runaway\",\"tp\":%d,\"bodies\":%d", r->index * 64, r->nev);
+                    log_final(r);
+                    r->finished = 1;
+                    r->timed_out = 1;
+                    hung++;
+                    pending--;
+                    continue;
+                }
                 if( r->done > 0 && subs_terminated(r) && (!r->keys[0] || r->keys_done) ) {
                     log_final(r);
                     r->finished = 1;
@@ -448,10 +466,13 @@ int main(int argc, char **argv)
                 }
             }
             if( vt_next != seen ) { seen = vt_next; t_progress = now_ms(); }
-            if( 0 == worked ) {
+            {
                 long t = now_ms();
-                if( t - t_progress > window || t - t_begin > 20 * window ) break;
-                usleep(50);
+                if( t - t_begin > 40 * window ) break;
+                if( 0 == worked ) {
+                    if( t - t_progress > window ) break;
+                    usleep(50);
+                }
             }
         }
         for( int i = first; i < last; i++ ) {
